@@ -222,6 +222,7 @@ class Module(AuxDataContainer):
             "Block", typing.Set[Symbol]
         ] = collections.defaultdict(set)
         self._ir: typing.Optional["IR"] = None
+        self._proto_module: typing.Optional[Module_pb2.Module] = None
         self.binary_path = binary_path
         self.isa = isa
         self.byte_order = byte_order
@@ -269,31 +270,47 @@ class Module(AuxDataContainer):
         m.sections.update(
             Section._from_protobuf(s, ir) for s in proto_module.sections
         )
-        # entry point is a code block, which depends on sections
+        # Everything that refers to other nodes (entry point, symbols,
+        # symbolic expressions, aux data) is decoded by _decode_references,
+        # which the IR calls once the blocks of *all* modules exist, so that
+        # a reference into a module listed later in the file resolves too.
         m.entry_point = None
-        if proto_module.entry_point:
-            entry_point_uuid = UUID(bytes=proto_module.entry_point)
-            entry_point = ir.get_by_uuid(entry_point_uuid)
-            if not isinstance(entry_point, CodeBlock):
-                raise DeserializationError(
-                    "Module: entry block UUID %s is not a CodeBlock"
-                    % entry_point_uuid
-                )
-            m.entry_point = entry_point
-        # symbols depend on blocks
-        m.symbols.update(
-            Symbol._from_protobuf(s, ir) for s in proto_module.symbols
-        )
+        m._proto_module = proto_module
+        return m
+
+    def _decode_references(self, ir: "IR", stage: int) -> None:
+        """Second part of decoding, called by the IR for every module after
+        all modules went through _decode_protobuf: stage 0 resolves the entry
+        point and the symbols (they depend on blocks), stage 1 the symbolic
+        expressions (they depend on symbols) and the aux data."""
+        proto_module = self._proto_module
+        if proto_module is None:
+            return
+        if stage == 0:
+            # entry point is a code block, which depends on sections
+            if proto_module.entry_point:
+                entry_point_uuid = UUID(bytes=proto_module.entry_point)
+                entry_point = ir.get_by_uuid(entry_point_uuid)
+                if not isinstance(entry_point, CodeBlock):
+                    raise DeserializationError(
+                        "Module: entry block UUID %s is not a CodeBlock"
+                        % entry_point_uuid
+                    )
+                self.entry_point = entry_point
+            # symbols depend on blocks
+            self.symbols.update(
+                Symbol._from_protobuf(s, ir) for s in proto_module.symbols
+            )
+            return
         # symbolic expressions depend on symbols
-        for section in m.sections:
+        for section in self.sections:
             for interval in section.byte_intervals:
                 interval._decode_symbolic_expressions(ir)
         # aux data may depend on any node
-        m.aux_data.update(
+        self.aux_data.update(
             AuxDataContainer._read_protobuf_aux_data(proto_module.aux_data, ir)
         )
-
-        return m
+        self._proto_module = None
 
     def _to_protobuf(self) -> Module_pb2.Module:
         proto_module = Module_pb2.Module()
